@@ -199,6 +199,7 @@ theorem rawS_sorted (rest : Bytes) (c : Cur) :
           · exact absurd h' hk
           · exact h'
         simp only [Stream.toks, List.mem_cons, forall_eq_or_imp, List.pairwise_cons]
+        have hlo := ho.1
         refine ⟨⟨ho.1, fun u hu => ?_⟩, fun u hu => ?_, i2⟩
         · have := i1 u hu; omega
         · have := i1 u hu; omega
